@@ -26,6 +26,7 @@ import (
 	"io"
 	"os"
 	"os/exec"
+	"runtime"
 	"sort"
 	"strconv"
 	"strings"
@@ -105,12 +106,13 @@ type Request struct {
 }
 
 type desc struct {
-	Kind     string       `json:"kind"` // single | conc
+	Kind     string       `json:"kind"` // single | conc | pair (reqs[0] is stopped in its handler until reqs[1] is done)
 	Service  string       `json:"service"`
 	Patterns []PatternDef `json:"patterns"`
 	Req      Request      `json:"req"`            // single
 	Reqs     []Request    `json:"reqs,omitempty"` // conc
 	Workers  int          `json:"workers,omitempty"`
+	Twice    bool         `json:"read_twice,omitempty"` // pair: the stopped handler also reads before stopping
 }
 
 // ---------------------------------------------------------------- Coq printers
@@ -595,14 +597,40 @@ type recorder struct {
 	mu  sync.Mutex
 	log []string // Coq lentry terms
 	off bool
+
+	// concurrent variants: entries are kept per resource name (every request of such a
+	// run has its own resource name, which comes from the subject, not from the payload)
+	keyed bool
+	logs  map[string][]string
+	yield int // runtime.Gosched calls before a handler reads the request
+	// overlap pair: the handler serving resource gateName stops on entry until released
+	gateName string
+	gateOnce sync.Once
+	entered  chan struct{}
+	release  chan struct{}
+	twice    bool // it also reads the request before stopping; both reads must agree
+	viol     []string
 }
 
-func (r *recorder) add(s string) {
+func (r *recorder) add(key, s string) {
 	r.mu.Lock()
 	if !r.off {
-		r.log = append(r.log, s)
+		if r.keyed {
+			if r.logs == nil {
+				r.logs = map[string][]string{}
+			}
+			r.logs[key] = append(r.logs[key], s)
+		} else {
+			r.log = append(r.log, s)
+		}
 	}
 	r.mu.Unlock()
+}
+
+func (r *recorder) logOf(key string) []string {
+	r.mu.Lock()
+	defer r.mu.Unlock()
+	return append([]string(nil), r.logs[key]...)
 }
 
 func goVal(v *Val) interface{} {
@@ -739,10 +767,41 @@ func doPanic(a Action) {
 
 // the service's own invocation: r is a *res.Request whatever the handler's interface type
 func (h hctx) runOuter(r *res.Request, script []Action) {
-	h.rec.add(fmt.Sprintf("LInvoke (Obs %d %s %s %s %s %s %s %s %s %s %s %s %s %s %s %s %s)",
-		h.pid, pHid(h.kind, h.key), Bool(r.ForValue()), B(r.Type()), B(r.Method()), B(r.ResourceName()),
-		AMap(r.PathParams()), B(r.Query()), B(r.Group()), B(r.CID()), B(string(r.RawToken())), B(string(r.RawParams())),
-		pHdr(r.Header()), B(r.Host()), B(r.RemoteAddr()), B(r.URI()), Bool(r.IsHTTP())))
+	rn := r.ResourceName()
+	read := func() string {
+		return fmt.Sprintf("LInvoke (Obs %d %s %s %s %s %s %s %s %s %s %s %s %s %s %s %s %s)",
+			h.pid, pHid(h.kind, h.key), Bool(r.ForValue()), B(r.Type()), B(r.Method()), B(r.ResourceName()),
+			AMap(r.PathParams()), B(r.Query()), B(r.Group()), B(r.CID()), B(string(r.RawToken())), B(string(r.RawParams())),
+			pHdr(r.Header()), B(r.Host()), B(r.RemoteAddr()), B(r.URI()), Bool(r.IsHTTP()))
+	}
+	gated := false
+	if h.rec.gateName != "" && h.rec.gateName == rn {
+		h.rec.gateOnce.Do(func() {
+			gated = true
+			first := ""
+			if h.rec.twice {
+				first = read()
+			}
+			close(h.rec.entered)
+			select {
+			case <-h.rec.release:
+			case <-time.After(8 * time.Second):
+			}
+			second := read()
+			if h.rec.twice && first != second {
+				h.rec.mu.Lock()
+				h.rec.viol = append(h.rec.viol, "the request read by the handler changed while another request was processed: before "+first+" after "+second)
+				h.rec.mu.Unlock()
+			}
+			h.rec.add(rn, second)
+		})
+	}
+	if !gated {
+		for i := 0; i < h.rec.yield; i++ {
+			runtime.Gosched()
+		}
+		h.rec.add(rn, read())
+	}
 	for _, a := range script {
 		switch a.Op {
 		case "reply":
@@ -794,10 +853,10 @@ func (h hctx) runOuter(r *res.Request, script []Action) {
 		case "value":
 			if a.B {
 				v := r.RequireValue()
-				h.rec.add("LValue " + pVal(valOf(v)) + " None")
+				h.rec.add(rn, "LValue "+pVal(valOf(v))+" None")
 			} else {
 				v, err := r.Value()
-				h.rec.add("LValue " + pVal(valOf(v)) + " " + pGErr(err))
+				h.rec.add(rn, "LValue "+pVal(valOf(v))+" "+pGErr(err))
 			}
 		}
 	}
@@ -806,7 +865,7 @@ func (h hctx) runOuter(r *res.Request, script []Action) {
 // the get handler called through Value(): r is the in-memory get request; only the
 // GetRequest interface exists, other actions cannot be written and are skipped
 func (h hctx) runNested(r res.GetRequest, script []Action) {
-	h.rec.add(fmt.Sprintf("LInvoke (Obs %d %s %s [] [] %s %s %s %s [] [] [] [] [] [] [] false)",
+	h.rec.add(r.ResourceName(), fmt.Sprintf("LInvoke (Obs %d %s %s [] [] %s %s %s %s [] [] [] [] [] [] [] false)",
 		h.pid, pHid(h.kind, h.key), Bool(r.ForValue()), B(r.ResourceName()), AMap(r.PathParams()), B(r.Query()), B(r.Group())))
 	for _, a := range script {
 		switch a.Op {
@@ -973,7 +1032,8 @@ func decodeError(payload string) string {
 
 type result struct {
 	Idx   int      `json:"idx"`
-	Terms []string `json:"terms"` // one per request (1 for single, n for conc)
+	Terms []string `json:"terms"` // one per request (1 for single, n for conc, 2 for pair)
+	Viol  []string `json:"viol,omitempty"`
 	Err   string   `json:"err,omitempty"`
 }
 
@@ -1096,7 +1156,7 @@ func runSingle(d desc) string {
 }
 
 func runConc(d desc) []string {
-	rec := &recorder{off: true}
+	rec := &recorder{keyed: true, yield: 3}
 	s, conn, served := startService(d, rec)
 	chans := make([]chan struct{}, len(d.Reqs))
 	// subjects repeat: count completions per subject
@@ -1144,7 +1204,7 @@ func runConc(d desc) []string {
 				ps = append(ps, p)
 			}
 		}
-		terms[i] = fmt.Sprintf("RC %s %s %s true %s [] %s %s", routeTerm(s, d, rq), partsTerm(rq), msgTerm(rq), pPubs(ps, rq.Reply), Bool(doneBy[rq.Subject]), Bool(probeOK))
+		terms[i] = fmt.Sprintf("RC %s %s %s true %s %s %s %s", routeTerm(s, d, rq), partsTerm(rq), msgTerm(rq), pPubs(ps, rq.Reply), List(rec.logOf(rq.Parts[1])), Bool(doneBy[rq.Subject]), Bool(probeOK))
 	}
 	s.Shutdown()
 	select {
@@ -1155,6 +1215,51 @@ func runConc(d desc) []string {
 	return terms
 }
 
+// request A (reqs[0]) is stopped inside its handler - after entry, before it reads anything - until
+// request B (reqs[1], another resource, hence another worker group) has been processed completely
+func runPair(d desc) ([]string, []string) {
+	a, b := d.Reqs[0], d.Reqs[1]
+	rec := &recorder{keyed: true, gateName: a.Parts[1], entered: make(chan struct{}), release: make(chan struct{}), twice: d.Twice}
+	s, conn, served := startService(d, rec)
+	ca, cb := hub.expect(a.Subject), hub.expect(b.Subject)
+	conn.inCh <- &nats.Msg{Subject: a.Subject, Reply: a.Reply, Data: []byte(a.Payload)}
+	enteredOK := wait(rec.entered, 5*time.Second)
+	conn.inCh <- &nats.Msg{Subject: b.Subject, Reply: b.Reply, Data: []byte(b.Payload)}
+	doneB := wait(cb, 5*time.Second)
+	close(rec.release)
+	doneA := wait(ca, 5*time.Second)
+	probeOK := probe(s, conn, d, "p")
+	all := conn.snapshot()
+	var viol []string
+	if !enteredOK {
+		viol = append(viol, "harness: the handler of the stopped request was never entered")
+	}
+	rec.mu.Lock()
+	viol = append(viol, rec.viol...)
+	rec.mu.Unlock()
+	terms := make([]string, 2)
+	for i, rq := range d.Reqs[:2] {
+		var ps []pub
+		for _, p := range all {
+			if p.subj == rq.Reply {
+				ps = append(ps, p)
+			}
+		}
+		done := doneA
+		if i == 1 {
+			done = doneB
+		}
+		terms[i] = fmt.Sprintf("RC %s %s %s true %s %s %s %s", routeTerm(s, d, rq), partsTerm(rq), msgTerm(rq), pPubs(ps, rq.Reply), List(rec.logOf(rq.Parts[1])), Bool(done), Bool(probeOK))
+	}
+	s.Shutdown()
+	select {
+	case <-served:
+	case <-time.After(5 * time.Second):
+	}
+	hub.clear()
+	return terms, viol
+}
+
 // the case as it looks when the service process died while handling it
 func crashedTerms(d desc) []string {
 	rec := &recorder{off: true}
@@ -1162,7 +1267,7 @@ func crashedTerms(d desc) []string {
 	one := func(rq Request, conc bool) string {
 		return fmt.Sprintf("RC %s %s %s %s [] [] false false", routeTerm(s, d, rq), partsTerm(rq), msgTerm(rq), Bool(conc))
 	}
-	if d.Kind == "conc" {
+	if d.Kind == "conc" || d.Kind == "pair" {
 		ts := make([]string, len(d.Reqs))
 		for i, rq := range d.Reqs {
 			ts[i] = one(rq, true)
@@ -1187,6 +1292,8 @@ func childMain(file string, from int) {
 		r := result{Idx: i}
 		if ds[i].Kind == "conc" {
 			r.Terms = runConc(ds[i])
+		} else if ds[i].Kind == "pair" {
+			r.Terms, r.Viol = runPair(ds[i])
 		} else {
 			r.Terms = []string{runSingle(ds[i])}
 		}
@@ -1198,7 +1305,7 @@ func childMain(file string, from int) {
 }
 
 // runs all descriptions in child processes; a child that dies marks the case it was working on
-func runAll(prop string, out string, ds []desc) (terms [][]string, crashed []bool, stderrTail string) {
+func runAll(prop string, out string, ds []desc) (terms [][]string, crashed []bool, viols [][]string, stderrTail string) {
 	file := out + "/descs_" + prop + ".json"
 	b, _ := json.Marshal(ds)
 	if err := os.WriteFile(file, b, 0o644); err != nil {
@@ -1206,6 +1313,7 @@ func runAll(prop string, out string, ds []desc) (terms [][]string, crashed []boo
 	}
 	terms = make([][]string, len(ds))
 	crashed = make([]bool, len(ds))
+	viols = make([][]string, len(ds))
 	from := 0
 	for from < len(ds) {
 		cmd := exec.Command(os.Args[0], "-prop", prop, "-out", out, "-child", file, "-from", strconv.Itoa(from))
@@ -1226,6 +1334,7 @@ func runAll(prop string, out string, ds []desc) (terms [][]string, crashed []boo
 				var r result
 				if json.Unmarshal(line, &r) == nil && r.Idx == next {
 					terms[next] = r.Terms
+					viols[next] = r.Viol
 					next++
 				}
 			}
@@ -1707,21 +1816,104 @@ func malformed(r *Rng, prop string, seq int, k int) desc {
 	return d
 }
 
-func genConc(r *Rng, prop string, nreq, nres, workers int) desc {
+// request payload whose every field is unique to the request id and of a length depending on it
+func uniqData(r *Rng, id int, kind string) (ReqData, string) {
+	pad := func(n int) string { return strings.Repeat("x", n) }
+	has := func() bool { return kind == "full" || r.Chance(70) }
+	js := func(v interface{}) string { b, _ := json.Marshal(v); return string(b) }
+	var d ReqData
+	var parts []string
+	if has() {
+		d.CID = fmt.Sprintf("cid-%d-%s", id, pad(id*7%23))
+		parts = append(parts, `"cid":`+js(d.CID))
+	}
+	if has() {
+		d.Params = fmt.Sprintf(`{"id":%d,"pad":"%s"}`, id, pad(id*13%61))
+		parts = append(parts, `"params":`+d.Params)
+	}
+	if has() {
+		d.Token = fmt.Sprintf(`{"user":"u%d","k":[%d,%d],"p":"%s"}`, id, id, id*id, pad(id*5%37))
+		parts = append(parts, `"token":`+d.Token)
+	}
+	if has() {
+		d.Header = map[string][]string{"X-Req": {fmt.Sprintf("h%d-%s", id, pad(id*3%17))}}
+		if id%3 == 0 {
+			d.Header["Cookie"] = []string{fmt.Sprintf("c=%d", id), "second"}
+		}
+		parts = append(parts, `"header":`+js(d.Header))
+	}
+	if has() {
+		d.Host = fmt.Sprintf("host%d.example.com", id)
+		parts = append(parts, `"host":`+js(d.Host))
+	}
+	if has() {
+		d.RemoteAddr = fmt.Sprintf("10.0.%d.%d:%d", id/250, id%250, 1000+id)
+		parts = append(parts, `"remoteAddr":`+js(d.RemoteAddr))
+	}
+	if has() {
+		d.URI = fmt.Sprintf("/ws/%d/%s", id, pad(id*11%19))
+		parts = append(parts, `"uri":`+js(d.URI))
+	}
+	if has() {
+		d.Query = fmt.Sprintf("id=%d&p=%s", id, pad(id*17%29))
+		parts = append(parts, `"query":`+js(d.Query))
+	}
+	if has() {
+		d.IsHTTP = id%2 == 0
+		parts = append(parts, `"isHttp":`+Bool(d.IsHTTP))
+	}
+	if n := len(parts); n > 1 {
+		k := r.Intn(n)
+		parts = append(parts[k:], parts[:k]...)
+	}
+	return d, "{" + strings.Join(parts, ",") + "}"
+}
+
+func loadHandlers(r *Rng, pid int, withNew bool) Handlers {
+	h := Handlers{Pid: pid}
+	s1, s2, s3 := genScript(r, replyKinds), genScript(r, getReplyKinds), genScript(r, replyKinds)
+	h.Access, h.Get = &s1, &s2
+	if withNew {
+		h.New = &s3
+	}
+	h.Call = genTable(r, []string{"set"}, false)
+	h.Auth = genTable(r, []string{"login"}, false)
+	return h
+}
+
+func loadRequest(r *Rng, reply, rname string, id int, methods []string, pk int) Request {
+	typ := r.Pick([]string{"access", "get", "call", "call", "auth"})
+	rq := Request{Reply: reply}
+	if typ == "call" || typ == "auth" {
+		m := r.Pick(methods)
+		rq.Parts = []string{typ, rname, m}
+		rq.Subject = typ + "." + rname + "." + m
+	} else {
+		rq.Parts = []string{typ, rname, ""}
+		rq.Subject = typ + "." + rname
+	}
+	switch {
+	case pk < 5:
+		rq.PKind = "full"
+		rq.Data, rq.Payload = uniqData(r, id, "full")
+	case pk < 8:
+		rq.PKind = "partial"
+		rq.Data, rq.Payload = uniqData(r, id, "partial")
+	case pk < 9:
+		rq.PKind = "empty"
+	default:
+		rq.PKind = "bad"
+		rq.Payload = badPayloads[r.Intn(len(badPayloads))]
+	}
+	return rq
+}
+
+// many requests, every one on its own resource name (so on its own worker group, except
+// the resources sharing a group), with payload values unique to the request
+func genConc(r *Rng, prop string, round, nreq, nres, workers int) desc {
 	d := desc{Kind: "conc", Service: "load", Workers: workers}
 	for i := 0; i < nres; i++ {
-		h := Handlers{Pid: i}
-		s1, s2, s3 := genScript(r, replyKinds), genScript(r, getReplyKinds), genScript(r, replyKinds)
-		h.Access, h.Get = &s1, &s2
-		if i%3 == 0 {
-			h.New = &s3
-		}
-		h.Call = genTable(r, []string{"set"}, false)
-		h.Auth = genTable(r, []string{"login"}, false)
-		p := PatternDef{Pattern: fmt.Sprintf("res%d", i), H: h}
-		if i%2 == 1 {
-			p.Pattern += ".$id"
-		}
+		p := PatternDef{Pattern: fmt.Sprintf("res%d.$id", i), H: loadHandlers(r, i, i%3 == 0)}
 		if i%5 == 0 {
 			p.Group = "shared"
 		}
@@ -1729,33 +1921,30 @@ func genConc(r *Rng, prop string, nreq, nres, workers int) desc {
 	}
 	for k := 0; k < nreq; k++ {
 		i := r.Intn(nres)
-		local := fmt.Sprintf("res%d", i)
-		if i%2 == 1 {
-			local += "." + r.Pick([]string{"1", "2", "call"})
-		}
-		rname := "load." + local
-		typ := r.Pick([]string{"access", "get", "call", "call", "auth"})
-		rq := Request{Reply: fmt.Sprintf("_INBOX.%s.c%d", prop, k)}
-		if typ == "call" || typ == "auth" {
-			m := r.Pick([]string{"set", "login", "new", "zzz", "get"})
-			rq.Parts = []string{typ, rname, m}
-			rq.Subject = typ + "." + rname + "." + m
-		} else {
-			rq.Parts = []string{typ, rname, ""}
-			rq.Subject = typ + "." + rname
-		}
-		switch pk := r.Intn(10); {
-		case pk < 5:
-			rq.PKind = "partial"
-			rq.Data, rq.Payload = genData(r, "partial")
-		case pk < 8:
-			rq.PKind = "empty"
-		default:
-			rq.PKind = "bad"
-			rq.Payload = badPayloads[r.Intn(len(badPayloads))]
-		}
-		d.Reqs = append(d.Reqs, rq)
+		rname := fmt.Sprintf("load.res%d.k%d", i, k)
+		d.Reqs = append(d.Reqs, loadRequest(r, fmt.Sprintf("_INBOX.%s.c%d.%d", prop, k, round), rname, round*1000+k, []string{"set", "login", "new", "zzz", "get"}, r.Intn(10)))
 	}
+	return d
+}
+
+// request A is stopped in its handler until request B, on another resource, is done
+func genPair(r *Rng, prop string, seq int) desc {
+	d := desc{Kind: "pair", Service: "ovl", Twice: seq%3 == 2}
+	d.Patterns = []PatternDef{{Pattern: "pa.$id", H: loadHandlers(r, 0, false)}, {Pattern: "pb.$id", H: loadHandlers(r, 1, seq%2 == 0)}}
+	ida := 1 + r.Intn(400)
+	idb := 1 + r.Intn(400)
+	if seq%2 == 0 {
+		idb = ida + 1 + r.Intn(50) // mostly longer values
+	}
+	// A must reach a handler: registered methods only, decodable payload
+	a := loadRequest(r, fmt.Sprintf("_INBOX.%s.pa%d", prop, seq), fmt.Sprintf("ovl.pa.a%d", seq), ida, []string{"set", "login"}, r.Intn(8))
+	if a.Parts[0] == "call" {
+		a.Parts[2], a.Subject = "set", "call."+a.Parts[1]+".set"
+	} else if a.Parts[0] == "auth" {
+		a.Parts[2], a.Subject = "login", "auth."+a.Parts[1]+".login"
+	}
+	b := loadRequest(r, fmt.Sprintf("_INBOX.%s.pb%d", prop, seq), fmt.Sprintf("ovl.pb.b%d", seq), idb, []string{"set", "login", "new", "zzz"}, r.Intn(8))
+	d.Reqs = []Request{a, b}
 	return d
 }
 
@@ -1875,20 +2064,24 @@ func main() {
 			add(malformed(r, *prop, seq, k))
 		}
 		// (d) concurrent load
-		rounds := 1
+		rounds := 2
 		if o.Tier == "thorough" {
 			rounds = 10
 		}
 		for k := 0; k < rounds; k++ {
-			d := genConc(r, *prop, 200, 20, *workers)
-			for i := range d.Reqs {
-				d.Reqs[i].Reply += fmt.Sprintf(".%d", k)
-			}
-			add(d)
+			add(genConc(r, *prop, k, 200, 20, *workers))
+		}
+		// (e) deterministic overlap of two requests on different worker groups
+		pairs := 60
+		if o.Tier == "thorough" {
+			pairs = 600
+		}
+		for k := 0; k < pairs; k++ {
+			add(genPair(r, *prop, seq))
 		}
 	}
 
-	terms, crashed, errTail := runAll(*prop, o.Out, ds)
+	terms, crashed, viols, errTail := runAll(*prop, o.Out, ds)
 	var cases []Case
 	var impl []ImplViolation
 	for i, d := range ds {
@@ -1896,12 +2089,33 @@ func main() {
 			dist["crashed"]++
 			impl = append(impl, ImplViolation{What: "the service process died while handling the request (a panic escaped): " + errTail, Desc: d, Tags: []string{"crash"}})
 		}
+		for _, v := range viols[i] {
+			impl = append(impl, ImplViolation{What: v, Desc: d, Tags: []string{"overlap-pair"}})
+		}
+		if d.Kind == "pair" {
+			for j, t := range terms[i] {
+				c := Case{Term: t, Desc: d, Nontrivial: true, Tags: []string{"overlap-pair", []string{"stopped-request", "overlapping-request"}[j%2]}}
+				if d.Twice {
+					c.Tags = append(c.Tags, "read-twice")
+				}
+				dist["pair-member"]++
+				dist["type:"+d.Reqs[j].Parts[0]]++
+				cases = append(cases, c)
+			}
+			continue
+		}
 		if d.Kind == "conc" {
 			for j, t := range terms[i] {
-				one := desc{Kind: "single", Service: d.Service, Req: d.Reqs[j], Workers: d.Workers}
+				// replayable: a small concurrent round of this request and the 7 fed after it
+				one := desc{Kind: "conc", Service: d.Service, Workers: d.Workers}
+				need := map[string]bool{}
+				for k := 0; k < 8 && k < len(d.Reqs); k++ {
+					rq := d.Reqs[(j+k)%len(d.Reqs)]
+					one.Reqs = append(one.Reqs, rq)
+					need[strings.Split(rq.Parts[1], ".")[1]] = true
+				}
 				for _, p := range d.Patterns {
-					// the replayable single request needs its own resource only
-					if strings.HasPrefix(d.Reqs[j].Parts[1]+".", d.Service+"."+strings.TrimSuffix(p.Pattern, ".$id")+".") {
+					if need[strings.TrimSuffix(p.Pattern, ".$id")] {
 						one.Patterns = append(one.Patterns, p)
 					}
 				}
